@@ -120,8 +120,12 @@ def oracle(case) -> Result:
                 pass
             r.label("inner-raises")
             continue
-        if wrapped.errors:
-            r.fail(f"C20:{side}:protocol:{wrapped.errors[0][0]}", f"{ctx}: {wrapped.errors[:2]!r}")
+        # what the bare application itself gets wrong (e.g. a hop-by-hop header it chose to send) is not the
+        # middleware's doing: only protocol errors that the wrapping introduces count
+        bare_codes = {e[0] for e in bare.errors}
+        introduced = [e for e in wrapped.errors if e[0] not in bare_codes]
+        if introduced:
+            r.fail(f"C20:{side}:protocol:{introduced[0][0]}", f"{ctx}: {introduced[:2]!r}")
         if bare.status_code != wrapped.status_code:
             r.fail(f"C20:{side}:status", f"{ctx}: bare {bare.status_code}, wrapped {wrapped.status_code}")
         editing = stack + decorators
@@ -159,7 +163,10 @@ _raw_headers = st.lists(
     st.sampled_from(
         [["Content-Type", "text/plain"], ["Set-Cookie", "a=1; Path=/"], ["Set-Cookie", "b=2; HttpOnly"], ["Set-Cookie", "c=3; Expires=Wed, 21 Oct 2026 07:28:00 GMT"],
          ["Link", "<a>; rel=next"], ["Link", "<b>; rel=prev"], ["Vary", "Accept"], ["Vary", "Cookie"], ["x-inner", "orig"], ["X-A", "1"], ["Cache-Control", "no-store"],
-         ["Set-Cookie", "name=caf\xe9; Path=/"], ["Set-Cookie", "u=\xfc\xf1\xef"], ["X-Latin", "d\xe9j\xe0 vu"], ["Content-Disposition", "attachment; filename=\"r\xe9sum\xe9.txt\""]]
+         ["Set-Cookie", "name=caf\xe9; Path=/"], ["Set-Cookie", "u=\xfc\xf1\xef"], ["X-Latin", "d\xe9j\xe0 vu"], ["Content-Disposition", "attachment; filename=\"r\xe9sum\xe9.txt\""],
+         # headers a gateway-aware application sends with 426 / 503 / 401-style answers; passing them on is the server's business
+         ["Connection", "close"], ["Upgrade", "h2c"], ["Connection", "Upgrade"], ["Keep-Alive", "timeout=5"], ["Proxy-Authenticate", "Basic realm=x"], ["Retry-After", "120"],
+         ["WWW-Authenticate", "Basic realm=\"a\""], ["WWW-Authenticate", "Bearer"], ["Content-Length", "0"], ["Trailer", "X-Sum"]]
     ),
     max_size=5,
 )
@@ -170,7 +177,7 @@ def raw_app(draw):
     chunks = draw(st.lists(st.one_of(st.just(b""), st.sampled_from([b"hello", b"world", b"\x00\xff", b"a"])), max_size=4))
     return {
         "app": "raw",
-        "status": draw(st.sampled_from(["200 OK", "200 Fine", "201 Created", "404 Not Found", "599 Custom", "299 Whatever", "302 Found"])),
+        "status": draw(st.sampled_from(["200 OK", "200 Fine", "201 Created", "404 Not Found", "599 Custom", "299 Whatever", "302 Found", "426 Upgrade Required", "503 Service Unavailable", "204 No Content", "304 Not Modified", "205 Reset Content", "103 Early Hints"])),
         "headers": draw(_raw_headers),
         "chunks": chunks,
         "returns": draw(st.sampled_from(["list", "tuple", "iter", "generator", "generator-late-start", "restart"])),
